@@ -43,7 +43,12 @@ def optimal(item):
     n = code.n
     em = D.make_noise(noise, ndef, ndkw)
     dec = DECODERS['MatchingDecoder'](code, em, p)
-    wx, wz = em.get_weights(code, p)
+    # the TRUE log-likelihood weights, derived here from the per-qubit channel
+    # (not taken from get_weights, whose correctness is part of what is judged)
+    pi_, px_, py_, pz_ = em.probability_distribution(code, p)
+    eps = 1e-20
+    wx = -np.log((px_ + py_ + eps) / (1 - (px_ + py_) + eps))
+    wz = -np.log((pz_ + py_ + eps) / (1 - (pz_ + py_) + eps))
     xi = np.nonzero(np.asarray(code.x_indices))[0]
     zi = np.nonzero(np.asarray(code.z_indices))[0]
     rng = np.random.default_rng(common.seed() + n)
